@@ -631,6 +631,7 @@ func (o *ovsdbClient) update(params []json.RawMessage, reply *[]interface{}) err
 		o.metrics.numTableUpdates.WithLabelValues(cookie.DatabaseName, tableName).Inc()
 	}
 
+	verifPoint("client.update.before")
 	db.cacheMutex.Lock()
 	if db.deferUpdates {
 		db.deferredUpdates = append(db.deferredUpdates, &bufferedUpdate{&updates, nil, ""})
@@ -672,6 +673,7 @@ func (o *ovsdbClient) update2(params []json.RawMessage, reply *[]interface{}) er
 		return fmt.Errorf("update: invalid database name: %s unknown", cookie.DatabaseName)
 	}
 
+	verifPoint("client.update.before")
 	db.cacheMutex.Lock()
 	if db.deferUpdates {
 		db.deferredUpdates = append(db.deferredUpdates, &bufferedUpdate{nil, &updates, ""})
@@ -719,6 +721,7 @@ func (o *ovsdbClient) update3(params []json.RawMessage, reply *[]interface{}) er
 		return fmt.Errorf("update: invalid database name: %s unknown", cookie.DatabaseName)
 	}
 
+	verifPoint("client.update.before")
 	db.cacheMutex.Lock()
 	if db.deferUpdates {
 		db.deferredUpdates = append(db.deferredUpdates, &bufferedUpdate{nil, &updates, lastTransactionID})
@@ -1018,6 +1021,7 @@ func (o *ovsdbClient) monitor(ctx context.Context, cookie MonitorCookie, reconne
 		return err
 	}
 
+	verifPoint("client.monitor.reply")
 	if !reconnecting {
 		db.monitors[cookie.ID] = monitor
 		o.metrics.numMonitors.Inc()
